@@ -300,27 +300,58 @@ theorem oldestFrame_eq {α : Type} (r : Ring α) (g : Ghost α) (h : RInv r g) :
     conv => lhs; rw [this]
     exact Nat.add_mod_right _ _
 
-/-- `CopyRecent()` is the frame completed just before the current one (capacity ≥ 2). -/
-theorem recent_eq {α : Type} (r : Ring α) (g : Ghost α) (h : RInv r g)
-    (h2 : 2 ≤ r.size) (hn : 1 ≤ g.n) : r.recent = g.vals (g.n - 1) := by
+theorem no_frame_yet_iff {α : Type} (r : Ring α) (g : Ghost α) (h : RInv r g) :
+    (r.cur = 0 ∧ r.full = false) ↔ g.n = 0 := by
   obtain ⟨hs, hc, hf, hm, ho, hv⟩ := h
-  unfold Ring.recent Ring.recentIdx
-  rw [← hv (g.n - 1) (by omega) (by omega)]
-  congr 1
-  rw [hc]
-  have e : g.n % r.size + r.size - 1 = (g.n % r.size + (r.size - 1)) := by omega
-  rw [e, Nat.mod_add_mod]
-  have e2 : g.n + (r.size - 1) = (g.n - 1) + r.size := by omega
-  rw [e2]; exact Nat.add_mod_right _ _
+  constructor
+  · rintro ⟨h0, hfl⟩
+    have hlt : g.n < r.size := by
+      rcases Nat.lt_or_ge g.n r.size with h2 | h2
+      · exact h2
+      · have := hf.mpr h2; rw [hfl] at this; cases this
+    rw [hc, Nat.mod_eq_of_lt hlt] at h0; exact h0
+  · intro hn
+    refine ⟨by rw [hc, hn]; exact Nat.zero_mod _, ?_⟩
+    cases hfl : r.full with
+    | false => rfl
+    | true => have := hf.mp hfl; omega
+
+/-- `CopyRecent()` is the frame completed just before the current one (capacity ≥ 2), and nil
+while no frame has been completed. -/
+theorem recent_eq {α : Type} (r : Ring α) (g : Ghost α) (h : RInv r g)
+    (h2 : 2 ≤ r.size) : r.recent = if g.n = 0 then none else some (g.vals (g.n - 1)) := by
+  have hiff := no_frame_yet_iff r g h
+  obtain ⟨hs, hc, hf, hm, ho, hv⟩ := h
+  unfold Ring.recent
+  by_cases hn : g.n = 0
+  · simp only [hn, if_true]; rw [if_pos (hiff.mpr hn)]
+  · simp only [hn, if_false]
+    rw [if_neg (fun hh => hn (hiff.mp hh))]
+    congr 1
+    unfold Ring.recentIdx
+    rw [← hv (g.n - 1) (by omega) (by omega)]
+    congr 1
+    rw [hc]
+    have e : g.n % r.size + r.size - 1 = (g.n % r.size + (r.size - 1)) := by omega
+    rw [e, Nat.mod_add_mod]
+    have e2 : g.n + (r.size - 1) = (g.n - 1) + r.size := by omega
+    rw [e2]; exact Nat.add_mod_right _ _
 
 /-- With capacity 1 the only slot is both current and "recent". -/
 theorem recent_size_one {α : Type} (r : Ring α) (g : Ghost α) (h : RInv r g)
-    (h1 : r.size = 1) : r.recent = g.vals g.n := by
+    (h1 : r.size = 1) : r.recent = if g.n = 0 then none else some (g.vals g.n) := by
+  have hiff := no_frame_yet_iff r g h
   obtain ⟨hs, hc, hf, hm, ho, hv⟩ := h
-  unfold Ring.recent Ring.recentIdx
-  rw [← hv g.n (Nat.le_refl _) (by omega)]
-  congr 1
-  rw [h1]; simp [Nat.mod_one]
+  unfold Ring.recent
+  by_cases hn : g.n = 0
+  · simp only [hn, if_true]; rw [if_pos (hiff.mpr hn)]
+  · simp only [hn, if_false]
+    rw [if_neg (fun hh => hn (hiff.mp hh))]
+    congr 1
+    unfold Ring.recentIdx
+    rw [← hv g.n (Nat.le_refl _) (by omega)]
+    congr 1
+    rw [h1]; simp [Nat.mod_one]
 
 /-! ### Operation sequences -/
 
